@@ -283,8 +283,12 @@ fn sibling_execute(_deps: DepsMut, _env: Env, _info: MessageInfo, msg: SiblingEx
 fn sibling_query(_deps: Deps, _env: Env, _msg: Empty) -> StdResult<Binary> {
     to_json_binary(&Empty {})
 }
+fn sibling_migrate(_deps: DepsMut, _env: Env, _msg: Empty) -> StdResult<Response> {
+    Ok(Response::new())
+}
+/// relay contract; also usable as a migration target (its migrate accepts `{}`)
 pub fn sibling_contract() -> Box<dyn Contract<Empty>> {
-    crate::trap::Trap::new(Box::new(ContractWrapper::new(sibling_execute, sibling_instantiate, sibling_query)))
+    crate::trap::Trap::new(Box::new(ContractWrapper::new(sibling_execute, sibling_instantiate, sibling_query).with_migrate(sibling_migrate)))
 }
 
 pub fn addr_s(a: &Addr) -> String {
